@@ -11,6 +11,8 @@ ENGINES = [
      "kind_free_text": "rapid state machines comparing the real stores / API with in-memory reference models after every step"},
     {"name": "authgrid", "path": "harness/chk/c17", "serves_properties": ["C17"],
      "kind_free_text": "header grammar x auth configuration grid through the real middleware chain with httptest"},
+    {"name": "loaderfuzz", "path": "harness/yamlgen", "serves_properties": ["C13", "C19"],
+     "kind_free_text": "grammar of DAG definitions with a per-field value hook (canaries, type confusion) + native fuzz targets on bytes"},
     {"name": "graphenum", "path": "harness/chk/c14", "serves_properties": ["C14"],
      "kind_free_text": "small-scope exhaustive digraph enumeration + random graphs with planted cycles; independent DFS oracle"},
 ]
@@ -72,6 +74,12 @@ META = {
         "technique": "grammar-based grid + property-based testing (rapid) + native fuzzing of the header value, judged by a decision table written from the property (differential against the real middleware chain)",
         "level_text": "Enumerated header grammar x configuration grid and random/fuzzed headers through the real middleware chain with a sentinel API handler.",
         "level_note": "Trusted: the decision-table oracle (necessary condition = a header field equals the token or decodes to user:password). The routed swagger handlers themselves are behind the same chain.",
+    },
+    "C13": {
+        "engine": "loaderfuzz", "design_ref": "DESIGN.md section 3 C13",
+        "technique": "grammar-based property testing with type-confusion mutators (rapid) + corpus replay + coverage-guided native fuzzing (thorough); validity-predicate oracle on every accepted DAG, crash/hang oracle on every entry point",
+        "level_text": "Generated search over the definition grammar x mutation positions x hostile values through every loader entry point; accepted definitions are checked for the structural guarantees the property lists and for a JSON status round trip.",
+        "level_note": "Trusted: yaml.v2 as emitter of the generated texts; the static validity predicate. Executing accepted definitions under the agent is sampled separately.",
     },
 }
 
